@@ -845,10 +845,13 @@ async fn err_case(fx: &Fixture, row: ErrRow, code: u64) -> Result<Result<(), Str
     let (cc, sc) = connect(fx, &w, idle).await.map_err(hfault)?;
     let mut conn = h3_quinn::Connection::new(cc.clone());
     let qcode = quinn::VarInt::from_u64(code).map_err(|_| hfault("code"))?;
+    // an even code is sent with an empty reason phrase (0 with an empty reason is what quinn itself sends when the last
+    // handle of a connection is dropped - an application close like any other)
+    let reason: &[u8] = if code % 2 == 0 { b"" } else { b"bye" };
     let conn_err = |e: &ConnectionErrorIncoming| -> String { format!("{e:?}") };
     let res: Result<(), String> = match row {
         ErrRow::CloseOnAccept => {
-            sc.close(qcode, b"bye");
+            sc.close(qcode, reason);
             match std::future::poll_fn(|cx| <h3_quinn::Connection as quic::Connection<Bytes>>::poll_accept_bidi(&mut conn, cx)).await {
                 Err(ConnectionErrorIncoming::ApplicationClose { error_code }) if error_code == code => {
                     // the driver keeps asking: same answer, no panic
@@ -872,7 +875,7 @@ async fn err_case(fx: &Fixture, row: ErrRow, code: u64) -> Result<Result<(), Str
             use quic::Connection as _;
             let timeout = row == ErrRow::TimeoutOnOpen;
             if !timeout {
-                sc.close(qcode, b"bye");
+                sc.close(qcode, reason);
             }
             // wait until quinn has registered the loss of the connection
             let _ = cc.closed().await;
@@ -921,14 +924,14 @@ async fn err_case(fx: &Fixture, row: ErrRow, code: u64) -> Result<Result<(), Str
             let (mut ptx, mut prx) = sc.accept_bi().await.map_err(|e| hfault(format!("{e}")))?;
             match row {
                 ErrRow::CloseOnRead => {
-                    sc.close(qcode, b"bye");
+                    sc.close(qcode, reason);
                     match std::future::poll_fn(|cx| bi.poll_data(cx)).await {
                         Err(StreamErrorIncoming::ConnectionErrorIncoming { connection_error: ConnectionErrorIncoming::ApplicationClose { error_code } }) if error_code == code => asked_again(&mut bi, code, true),
                         other => Err(format!("peer closed with {code:#x}; poll_data gave {other:?}")),
                     }
                 }
                 ErrRow::CloseOnWrite => {
-                    sc.close(qcode, b"bye");
+                    sc.close(qcode, reason);
                     // wait until the close arrived
                     let _ = cc.closed().await;
                     let r = match bi.send_data(WriteBuf::from(Frame::Data(Bytes::from(vec![0u8; 100])))) {
